@@ -295,9 +295,15 @@ class AnyState(State):
     """
 
     def _on_event_defined(self, event: str, transition: Transition, states: List[State]):
+        # the placeholder is expanded onto each state only once, also when the event is
+        # defined again for a class that inherits the states
+        expanded = getattr(transition, "_expanded_states", None)
+        if expanded is None:
+            expanded = transition._expanded_states = []  # type: ignore[attr-defined]
         for state in states:
-            if state.final:
+            if state.final or any(state is s for s in expanded):
                 continue
+            expanded.append(state)
             new_transition = transition._copy_with_args(source=state, event=event)
 
             state.transitions.add_transitions(new_transition)
